@@ -22,10 +22,10 @@ BOUNDS = {
     "thorough": "as quick plus d=3 variants, both tilt signs, F=3 relaxation, boo_3d l up to 6",
 }
 STUBS = ["boo.sph_harm_l -> opaque symbols per distinct bond direction (translation/image/relabel/dilation of boo_3d); real table "
-         "for the rotation about z (l<=2)", "np.linalg.eigh -> contract stub (Hessian: only the matrix law is decided)",
+         "for the rotation about z (l=1)", "np.linalg.eigh -> contract stub (Hessian: only the matrix law is decided)",
          "np.rint -> symbol + lemma instances (L2 for integer image shifts)"]
 ASSUMPTIONS = ["floats modelled as reals ('to floating-point accuracy' is the replay tolerance 1e-7)", "away from exact half-cell ties",
-               "general SO(3) only through rotations about the coordinate axes; q_l / w-hat_l rotation only about z (l<=2, real table)",
+               "general SO(3) only through rotations about the coordinate axes; q_l rotation only about z (l=1, real table)",
                "Hessian spectra: the matrix law (equal / P H P^T / axis-permuted) is decided, the spectrum follows by similarity",
                "species swap: two species; axis permutation: orthogonal cells"]
 
@@ -464,7 +464,7 @@ def cfg(tier, seed):
     for tr, cell, ppp, arg in (("translate", "o", [1, 1, 1], None), ("image", "t-", [1, 1, 1], None), ("dilate", "o", [0, 0, 0], None)):
         out.append(dict(obs="boo3d", tr=tr, cell=cell, ppp=ppp, arg=arg, params=dict(l=4, topo=TOPO3), **three))
     out.append(dict(obs="boo3d", tr="rotate", cell="o", ppp=[0, 0, 0], arg=2,
-                    params=dict(l=(1 if tier == "quick" else 2), topo=[[1], [0], [0]], opaque=False, w=False), **three))
+                    params=dict(l=1, topo=[[1], [0], [0]], opaque=False, w=False), **three))      # l=2 with the real table: worker ran out of resources in the first thorough run - outside the claim
     # ---- tetrahedral order (N=5, four concrete)
     tet = dict(d=3, N=5, F=1, types=[1] * 5, fixed=4)
     for tr, arg in (("translate", None), ("rotate", 0), ("dilate", None)):
